@@ -79,6 +79,41 @@ def asCheck (v : Json) : Except String Check := do
 
 def getChecks (j : Json) : Except String (List Check) := do (← getArr j "checks").mapM asCheck
 
+/-- `null` / absent = Python's `None`; the name "balance" (outside the model) is dropped -/
+def getOptChecks (j : Json) (k : String) : Except String (Option (List Check)) := do
+  match j.getObjVal? k with
+  | .ok .null => pure none
+  | .error _ => pure none
+  | .ok (.arr a) => do
+      let l ← (a.toList.filter fun v => v != .str "balance").mapM asCheck
+      pure (some l)
+  | .ok _ => .error s!"!bad-arg:{k}"
+
+def asSStoich (v : Json) : Except String SStoich := do
+  (← asArr v).mapM fun p => do
+    match p with
+    | .arr #[k, n] => pure (← asStr k, ← asInt n)
+    | _ => .error "!bad-arg:stoich"
+
+def asSRxn (v : Json) : Except String SRxn := do
+  match v with
+  | .arr #[a, b, c, d, p, n, pb, isEq] =>
+    let param ← match p with
+      | .null => pure none
+      | _ => do pure (some (← asInt p))
+    let name ← match n with
+      | .null => pure none
+      | _ => do pure (some (← asStr n))
+    let paramB ← match pb with
+      | .null => pure none
+      | _ => do pure (some (← asInt pb))
+    let eq ← match isEq with
+      | .bool b => pure b
+      | _ => .error "!bad-arg:isEq"
+    pure { reac := ← asSStoich a, prod := ← asSStoich b, inactReac := ← asSStoich c, inactProd := ← asSStoich d,
+           param := param, name := name, paramB := paramB, isEq := eq }
+  | _ => .error "!bad-arg:rxn"
+
 partial def asPred (v : Json) : Except String Pred := do
   match v with
   | .arr #[.str "has_key", k] => pure (.hasKey (← asStr k))
@@ -137,6 +172,7 @@ def asSubstArg (j : Json) : Except String SubstArg := do
   | .ok (.arr #[.str "str", s]) => do pure (.str (← asStr s))
   | .ok (.arr #[.str "substs", l]) => do pure (.substs (← (← asArr l).mapM asSubst))
   | .ok (.arr #[.str "odict", l]) => do pure (.odict (← asODict l))
+  | .ok (.arr #[.str "dict", l]) => do pure (.dict (← asODict l))
   | _ => .error "!bad-arg:substances"
 
 def getOptBool (j : Json) (k : String) : Except String (Option Bool) :=
@@ -165,9 +201,42 @@ def h : Handler := fun op j =>
   match op with
   | "make" => do
       let rx ← (← getArr j "rxns").mapM asRxn
-      match RSys.make rx (← asSubstArg j) (← getChecks j) (← getOptBool j "sort") with
+      let checks ← getOptChecks j "checks"
+      let dont ← getOptChecks j "dont_check"
+      let missing ← match j.getObjVal? "missing" with
+        | .ok (.bool b) => pure b
+        | .ok _ => .error "!bad-arg:missing"
+        | .error _ => pure false
+      match RSys.makeFull rx (← asSubstArg j) checks dont (← getOptBool j "sort") missing with
       | .ok s => pure (jSys s).compress
-      | .error c => pure (checkName c)
+      | .error (.check c) => pure (checkName c)
+      | .error .anyCheck => pure "ValueError:some-check"
+      | .error .bothGiven => pure "ValueError:both"
+      | .error .typeError => pure "TypeError"
+  | "check" => do
+      pure (toString (runCheck (← getSys j "sys") (← match j.getObjVal? "check" with
+        | .ok v => asCheck v
+        | _ => .error "!bad-arg:check")))
+  | "any_effect" => do
+      match j.getObjVal? "rxn" with
+      | .ok v => do pure (toString (← asRxn v).anyEffect)
+      | _ => .error "!bad-arg:rxn"
+  | "rxn_eq" => do
+      match j.getObjVal? "a", j.getObjVal? "b" with
+      | .ok a, .ok b => do pure (toString ((← asRxn a).pyEq (← asRxn b)))
+      | _, _ => .error "!bad-arg:rxn"
+  | "categorize_signed" => do
+      let rx ← (← getArr j "rxns").mapM asSRxn
+      let subs ← match j.getObjVal? "subs" with
+        | .ok v => asODict v
+        | _ => .error "!bad-arg:subs"
+      match categorizeSigned rx subs (← getChecks j) with
+      | .ok c => pure (Json.arr #[jStrs c.accumulated, jStrs c.depleted, jStrs c.unaffected, jStrs c.nonparticipating]).compress
+      | .error (.cat (.check c)) => pure (checkName c)
+      | .error (.cat (.expand .rateNeeded)) => pure "ValueError:rate"
+      | .error (.cat (.expand .noEffect)) => pure "ValueError:no_effect"
+      | .error .negative => pure "ValueError:negative"
+      | .error .unmodelled => pure "!unmodelled"
   | "split" => do
       match split (← getSys j "sys") (← getChecks j) with
       | .ok l => pure (Json.arr (l.map fun p => Json.arr #[jNats p.1, jSys p.2]).toArray).compress
@@ -234,9 +303,13 @@ def h : Handler := fun op j =>
       let d := asPerSubstanceDict (← getSys j "sys") (← getRatList j "arr")
       pure (Json.arr (d.map fun kv => Json.arr #[.str kv.1, .str (showRat kv.2)]).toArray).compress
   | "substance_index" => do
-      match asSubstanceIndex (← getSys j "sys") (← getStr j "key") with
-      | some i => pure (toString i)
-      | none => pure "ValueError"
+      match j.getObjVal? "key" with
+      | .ok (.str k) =>
+        match asSubstanceIndex (← getSys j "sys") k with
+        | some i => pure (toString i)
+        | none => pure "ValueError"
+      | .ok v => do pure (toString (asSubstanceIndexInt (← getSys j "sys") (← asInt v)))
+      | .error _ => .error "!bad-arg:key"
   | "varied" => do
       let vj ← getArr j "varied"
       let varied ← vj.mapM fun p => do
